@@ -1003,6 +1003,23 @@ fn c18(r: &mut Rng, i: u64, p: &HashMap<String, String>) -> Vec<Value> {
             }
             return true;
         }
+        // a decoy: a display:none rule that selects nothing, because the one element that carries its class would have to
+        // be its own ancestor / parent / sibling, or carry a class that nobody has
+        if r.chance(1, 10) && !attrs.iter().any(|(k, _)| k == "class") && !["html", "body"].contains(&name.as_str()) {
+            *nh += 1;
+            let cls = format!("d{}", nh);
+            attrs.push(("class".into(), cls.clone()));
+            let me = |comb: &str, nm: &str| json!({"comb": comb, "name": nm, "star": false, "cls": [cls.clone()], "id": "", "nth": []});
+            let sel = match r.below(6) {
+                0 => json!([me("", ""), me("desc", "")]),
+                1 => json!([me("", ""), me("child", "")]),
+                2 => json!([me("", name.as_str()), me("desc", name.as_str())]),
+                3 => json!([{"comb": "", "name": name.clone(), "star": false, "cls": [], "id": "", "nth": []}, me("desc", ""), me("desc", "")]),
+                4 => json!([{"comb": "", "name": "", "star": false, "cls": [cls.clone(), "nobody".to_string()], "id": "", "nth": []}]),
+                _ => json!([me("", ""), {"comb": "desc", "name": "", "star": false, "cls": ["nobody"], "id": "", "nth": []}]),
+            };
+            rules.push(json!({"sels": [sel], "decls": [{"prop": "display", "val": "none", "imp": r.chance(1, 4)}]}));
+        }
         let mut k = 0;
         while k < kids.len() { if walk(r, &mut kids[k], rules, nh, hidden_names) { kids[k] = mark_deleted(kids[k].clone()); } k += 1; }
         false
